@@ -41,6 +41,9 @@ CLAIMS["C09"] = ("ownership of did:nuts store writes + must-pass-through on the 
 CLAIMS["C16"] = ("must-pass-through on server registration, the registration/retraction validators and the client updater + argument provenance (signer-bound lookups) + transaction-closure ordering of the store (increment/delete/insert, timestamp-before-rows, wipe with full-row Save) + assumption-specialised reachability of the search filter",
   "Static decision that the server lists only registrations that passed every listed check, that retractions are bound to the signer of an existing entry, that the store's timestamp protocol has the required ordering, and that the client marks entries validated only after verifying them itself and searches only validated, unexpired entries. Exhaustive over the current source.",
   "Trusts go/ssa, gorm semantics; replica convergence over interleavings is not decided.")
+CLAIMS["C15"] = ("inventory of message-literal fields that carry payload bytes + must-pass-through on the payload query, list collector, payload store and TLS authenticator + ownership of Authenticated=true stores, payload readers/writers and the dummy authenticator + argument provenance",
+  "Static decision that private payload bytes can reach an outgoing message only through authentication + decrypted-PAL membership of the verified node DID, never through lists; that received payloads are stored only after the hash comparison; and that a peer is marked authenticated only by the authenticators after certificate/host verification. Exhaustive over the current source.",
+  "Trusts go/ssa, gRPC/TLS certificate validation and ECIES; generated protobuf code is out of the carrier inventory (it only copies wire bytes).")
 PENDING = {}
 
 def main():
